@@ -986,6 +986,12 @@ func init() {
 					return a + op + b
 				}
 				if v := af.varOf(g.Expr); v != nil && types.TypeString(v.Type(), nil) == "bool" {
+					// the comma-ok of "is the first element a key: value pair" carries meaning: its polarity is kept
+					if d := af.singleDef(v); d != nil && d.idx == 1 {
+						if ta, ok := ast.Unparen(d.rhs).(*ast.TypeAssertExpr); ok && ta.Type != nil && types.TypeString(af.Info.TypeOf(ta.Type), nil) == "*go/ast.KeyValueExpr" {
+							return neg + "keyed"
+						}
+					}
 					return neg + "ok"
 				}
 				return neg + "?(" + types.ExprString(g.Expr) + ")"
@@ -1033,7 +1039,7 @@ func init() {
 					unexported = true
 					r.Check(strings.Contains(got, "!declared-inside"), "reject/unexported-foreign/not-own-declarations", rj.as.Pos(), "names the expression itself declares (parameters of a function type, fields of a struct type) are exempt: they move with it")
 					r.Ok("reject/unexported-foreign", rj.as.Pos(), "an identifier is rejected when it is unexported and belongs to another package — under exactly: %s", got)
-				case "!field.Exported() ∧ pkg.Path()!=wantPkg":
+				case "!field.Exported() ∧ !keyed ∧ pkg.Path()!=wantPkg":
 					literal = true
 					// the literal's recorded type may be *T (an element literal with elided type in []*T{{…}})
 					through := false
